@@ -24,8 +24,9 @@ def run(c):
         _dp.model(c)
         trace = c.scratch + "/c10.ndjson"
         t1, t2 = c.scratch + "/fault.ndjson", c.scratch + "/alert.ndjson"
-        c.run_driver(drv, ["-mode", "fault", "-out", t1, "-topos", "T1,T2,T3"])
-        c.run_driver(drv, ["-mode", "alert", "-out", t2, "-topos", "T1,T2,T3"])
+        rnd = ["-random", 8] if c.thorough else []
+        c.run_driver(drv, ["-mode", "fault", "-out", t1, "-topos", "T1,T2,T3"] + rnd)
+        c.run_driver(drv, ["-mode", "alert", "-out", t2, "-topos", "T1,T2,T3"] + rnd)
         with open(trace, "w") as g:
             for p in (t1, t2):
                 g.write(open(p).read())
